@@ -10,7 +10,8 @@
    Reader.SkipWhitespaces uses position 0 as "no line break seen"); [Section SimStep] /
    [C12_shift_engine] — the simulation, lifted by induction on fuel. *)
 From Coq Require Import String List NArith ZArith Bool Arith Lia.
-From Parsley Require Import Obs Base FileSet FileSetProofs Grammar Engine EngineFacts EngineHarness.
+From Parsley Require Reader Regex Literals ReaderProofs.   (* NOT imported: qualified names only (wsmode, is_ws, remaining, VInt ... clash) *)
+From Parsley Require Import Obs Base FileSet FileSetProofs Grammar Engine TermFacts EngineFacts EngineHarness.
 Import ListNotations.
 Open Scope N_scope.
 
@@ -18,7 +19,7 @@ Open Scope N_scope.
 (* Shifting everything that carries positions                          *)
 
 Definition shift_input (d : N) (inp : input) : input :=
-  {| i_data := i_data inp; i_offset := i_offset inp + d |}.
+  {| i_data := i_data inp; i_offset := i_offset inp + d; i_cf := i_cf inp; i_cd := i_cd inp |}.
 
 Fixpoint shift_node (d : N) (n : node) : node :=
   match n with
@@ -118,6 +119,156 @@ Proof. destruct (p <? q) eqn:E; [apply N.ltb_lt in E; apply N.ltb_lt; lia | appl
 Lemma leb_shift p q d : (p + d <=? q + d) = (p <=? q).
 Proof. destruct (p <=? q) eqn:E; [apply N.leb_le in E; apply N.leb_le; lia | apply N.leb_gt in E; apply N.leb_gt; lia]. Qed.
 
+(* ------------------------------------------------------------------ *)
+(* The literal parsers (Literals.v, C08) commute with the shift: ALL eleven of them, for every   *)
+(* reader, position and construction parameter (also outside the documented domain: a panic      *)
+(* stays a panic)                                                                                *)
+
+Definition shift_lnode (d : N) (nd : Literals.lit_node) : Literals.lit_node :=
+  {| Literals.ln_token := Literals.ln_token nd; Literals.ln_pos := Literals.ln_pos nd + d;
+     Literals.ln_rpos := Literals.ln_rpos nd + d; Literals.ln_value := Literals.ln_value nd |}.
+Definition shift_lerr (d : N) (e : Literals.lit_err) : Literals.lit_err :=
+  {| Literals.le_pos := Literals.le_pos e + d; Literals.le_kind := Literals.le_kind e |}.
+Definition shift_lres (d : N) (x : Literals.lit_result) : Literals.lit_result :=
+  (option_map (shift_lnode d) (fst x), option_map (shift_lerr d) (snd x)).
+Definition shift_lout (d : N) : outcome Literals.lit_result -> outcome Literals.lit_result :=
+  shift_outcome (shift_lres d).
+
+Section LitShift.
+  Variable cf : list N -> option N.
+  Variable cd : list N -> option Z.
+  Variable r : Reader.reader.
+  Variable d : N.
+  Notation r' := (Reader.shift_reader r d).
+
+  (* rewrite the first reader primitive with its shift theorem and split its outcome *)
+  Ltac prim thm p v :=
+    rewrite thm;
+    match goal with
+    | |- context [Reader.shift_out d ?o] =>
+      destruct o as [[p v]| |]; cbn [Reader.shift_out Reader.shift_fst bind fst snd]; try reflexivity
+    end.
+
+  Lemma integer_shift pos : Literals.p_integer r' (pos + d) = shift_lout d (Literals.p_integer r pos).
+  Proof.
+    unfold Literals.p_integer. prim ReaderProofs.read_regexp_shift p1 v1.
+    destruct v1 as [x|]; [|reflexivity].
+    prim ReaderProofs.read_rune_shift p2 ok2. destruct ok2; [reflexivity|].
+    destruct (Literals.parse_int_base0 x); reflexivity.
+  Qed.
+
+  Lemma float_shift pos : Literals.p_float cf r' (pos + d) = shift_lout d (Literals.p_float cf r pos).
+  Proof.
+    unfold Literals.p_float. prim ReaderProofs.read_regexp_shift p1 v1.
+    destruct v1 as [x|]; [|reflexivity]. destruct (cf x); reflexivity.
+  Qed.
+
+  Lemma duration_shift pos : Literals.p_duration cd r' (pos + d) = shift_lout d (Literals.p_duration cd r pos).
+  Proof.
+    unfold Literals.p_duration. prim ReaderProofs.read_regexp_shift p1 v1.
+    destruct v1 as [x|]; [|reflexivity]. destruct (cd x); reflexivity.
+  Qed.
+
+  (* string.go after the opening quote has been read, for either quote *)
+  Lemma string_tail_shift pos quote p2 :
+    bind (Reader.read_rune r' (p2 + d) quote) (fun x3 =>
+      if snd x3 then Literals.ret_node (Literals.str_bytes "STRING") (pos + d) (fst x3) (Literals.VStr [])
+      else
+        bind (if quote =? 96 then Reader.read_regexp (Regex.re_find Regex.re_backquote) r' (fst x3)
+              else Reader.readf Literals.unquote_string r' (fst x3)) (fun x4 =>
+          bind (Reader.read_rune r' (fst x4) quote) (fun x5 =>
+            if negb (snd x5)
+            then Literals.ret_err (fst x5) (Literals.EOther (Literals.str_bytes "was expecting '" ++ [quote] ++ [39]))
+            else Literals.ret_node (Literals.str_bytes "STRING") (pos + d) (fst x5)
+                                   (Literals.VStr (Literals.bytes_of_opt (snd x4)))))) =
+    shift_lout d
+    (bind (Reader.read_rune r p2 quote) (fun x3 =>
+      if snd x3 then Literals.ret_node (Literals.str_bytes "STRING") pos (fst x3) (Literals.VStr [])
+      else
+        bind (if quote =? 96 then Reader.read_regexp (Regex.re_find Regex.re_backquote) r (fst x3)
+              else Reader.readf Literals.unquote_string r (fst x3)) (fun x4 =>
+          bind (Reader.read_rune r (fst x4) quote) (fun x5 =>
+            if negb (snd x5)
+            then Literals.ret_err (fst x5) (Literals.EOther (Literals.str_bytes "was expecting '" ++ [quote] ++ [39]))
+            else Literals.ret_node (Literals.str_bytes "STRING") pos (fst x5)
+                                   (Literals.VStr (Literals.bytes_of_opt (snd x4))))))).
+  Proof.
+    prim ReaderProofs.read_rune_shift p3 ok3. destruct ok3; [reflexivity|].
+    destruct (quote =? 96).
+    - prim ReaderProofs.read_regexp_shift p4 v4.
+      prim ReaderProofs.read_rune_shift p5 ok5. destruct ok5; reflexivity.
+    - prim ReaderProofs.readf_shift p4 v4.
+      prim ReaderProofs.read_rune_shift p5 ok5. destruct ok5; reflexivity.
+  Qed.
+
+  Lemma string_shift bq pos : Literals.p_string bq r' (pos + d) = shift_lout d (Literals.p_string bq r pos).
+  Proof.
+    unfold Literals.p_string. prim ReaderProofs.read_rune_shift p1 ok1.
+    destruct (negb ok1 && bq).
+    - prim ReaderProofs.read_rune_shift p2 ok2.
+      destruct ok2; cbn [negb]; [|reflexivity]. apply string_tail_shift.
+    - cbn [bind fst snd]. destruct ok1; cbn [negb]; [|reflexivity]. apply string_tail_shift.
+  Qed.
+
+  Lemma char_shift pos : Literals.p_char r' (pos + d) = shift_lout d (Literals.p_char r pos).
+  Proof.
+    unfold Literals.p_char. prim ReaderProofs.read_rune_shift p1 ok1.
+    destruct ok1; cbn [negb]; [|reflexivity].
+    prim ReaderProofs.read_regexp_shift p2 v2. destruct v2 as [x|]; [|reflexivity].
+    prim ReaderProofs.read_rune_shift p3 ok3. destruct ok3; cbn [negb]; [|reflexivity].
+    destruct (Literals.unquote_char x 39) as [[value k]|]; [destruct (k =? len_N x)|]; reflexivity.
+  Qed.
+
+  Lemma bool_shift t f pos : Literals.p_bool t f r' (pos + d) = shift_lout d (Literals.p_bool t f r pos).
+  Proof.
+    unfold Literals.p_bool. destruct t as [|t0 t]; [reflexivity|]. destruct f as [|f0 f]; [reflexivity|].
+    prim ReaderProofs.match_word_shift p1 ok1. destruct ok1; [reflexivity|].
+    prim ReaderProofs.match_word_shift p2 ok2. destruct ok2; reflexivity.
+  Qed.
+
+  Lemma nil_shift s pos : Literals.p_nil s r' (pos + d) = shift_lout d (Literals.p_nil s r pos).
+  Proof.
+    unfold Literals.p_nil. destruct s as [|s0 s]; [reflexivity|].
+    prim ReaderProofs.match_word_shift p1 ok1. destruct ok1; reflexivity.
+  Qed.
+
+  Lemma word_shift w pos : Literals.p_word w r' (pos + d) = shift_lout d (Literals.p_word w r pos).
+  Proof.
+    unfold Literals.p_word. destruct w as [|w0 w]; [reflexivity|].
+    prim ReaderProofs.match_word_shift p1 ok1. destruct ok1; reflexivity.
+  Qed.
+
+  Lemma op_shift s pos : Literals.p_op s r' (pos + d) = shift_lout d (Literals.p_op s r pos).
+  Proof.
+    unfold Literals.p_op. destruct s as [|s0 s]; [reflexivity|].
+    prim ReaderProofs.match_string_shift p1 ok1. destruct ok1; reflexivity.
+  Qed.
+
+  Lemma rune_shift ch pos : Literals.p_rune ch r' (pos + d) = shift_lout d (Literals.p_rune ch r pos).
+  Proof.
+    unfold Literals.p_rune. prim ReaderProofs.read_rune_shift p1 ok1. destruct ok1; reflexivity.
+  Qed.
+
+  Lemma regexp_shift re g pos : Literals.p_regexp re g r' (pos + d) = shift_lout d (Literals.p_regexp re g r pos).
+  Proof.
+    unfold Literals.p_regexp. destruct (g =? 0).
+    - prim ReaderProofs.read_regexp_shift p1 v1. destruct v1; reflexivity.
+    - prim ReaderProofs.read_regexp_submatch_shift p1 v1. destruct v1 as [ms|]; [|reflexivity].
+      destruct (nth_N ms g); reflexivity.
+  Qed.
+
+  (* every literal parser, every reader, every position: node positions (ln_pos, ln_rpos) and the
+     error position (le_pos) move by [d]; token, value, error kind and a panic are unchanged *)
+  Theorem lit_parse_shift l pos :
+    Literals.lit_parse cf cd l r' (pos + d) = shift_lout d (Literals.lit_parse cf cd l r pos).
+  Proof.
+    destruct l; cbn [Literals.lit_parse].
+    - apply integer_shift. - apply float_shift. - apply string_shift. - apply char_shift.
+    - apply bool_shift. - apply nil_shift. - apply word_shift. - apply op_shift. - apply rune_shift.
+    - apply duration_shift. - apply regexp_shift.
+  Qed.
+End LitShift.
+
 Section Prims.
   Variable d : N.
   Variable inp : input.
@@ -132,14 +283,26 @@ Section Prims.
   Lemma is_eof_shift pos : is_eof inp' (pos + d) = is_eof inp pos.
   Proof. unfold is_eof, i_len, shift_input; cbn [i_data i_offset]. rewrite sub_shift. reflexivity. Qed.
 
+  (* the reader of the shifted input is the shifted reader *)
+  Lemma reader_of_shift : reader_of inp' = Reader.shift_reader (reader_of inp) d.
+  Proof. reflexivity. Qed.
+
+  (* the panic marker error lies at [pos], so it moves with it *)
+  Lemma lit_conv_shift pos o :
+    lit_conv (pos + d) (shift_lout d o) = (map sh (fst (lit_conv pos o)), shift_oerr d (snd (lit_conv pos o))).
+  Proof. destruct o as [[[nd|] [e|]]| |]; reflexivity. Qed.
+
   Lemma term_parse_shift t pos :
     term_parse inp' t (pos + d) =
     (map sh (fst (term_parse inp t pos)), shift_oerr d (snd (term_parse inp t pos))).
   Proof.
-    destruct t as [ch]. unfold term_parse. rewrite byte_at_shift.
-    destruct (byte_at inp pos) as [b|]; [destruct (b =? ch)|]; cbn [fst snd map shift_node shift_oerr option_map];
-      unfold shift_err, mk_err; cbn [epos ecause]; try reflexivity.
-    replace (pos + d + 1) with (pos + 1 + d) by lia. reflexivity.
+    destruct t as [ch|l]; unfold term_parse.
+    - rewrite byte_at_shift.
+      destruct (byte_at inp pos) as [b|]; [destruct (b =? ch)|]; cbn [fst snd map shift_node shift_oerr option_map];
+        unfold shift_err, mk_err; cbn [epos ecause]; try reflexivity.
+      replace (pos + d + 1) with (pos + 1 + d) by lia. reflexivity.
+    - change (reader_of inp') with (Reader.shift_reader (reader_of inp) d).
+      cbn [shift_input i_cf i_cd]. rewrite lit_parse_shift. apply lit_conv_shift.
   Qed.
 
   (* ---- whitespace: position 0 is the "no line break seen" sentinel ---- *)
@@ -200,8 +363,8 @@ Section Prims.
     destruct (ws_scan l pos 0) as [e nl]. cbn [fst snd] in *.
     destruct m.
     - destruct (pos <? e); cbn [fst snd err_ok epos]; split; (lia || exact I).
-    - destruct (0 <? nl) eqn:E; cbn [fst snd err_ok epos]; split; try (lia || exact I).
-      apply N.ltb_lt in E. lia.
+    - destruct (0 <? nl) eqn:E; cbn [fst snd err_ok epos]; split; try (lia || exact I);
+        apply N.ltb_lt in E; lia.       (* with ZifyBool loaded (through TermFacts) lia may already close it *)
     - cbn [fst snd err_ok]. split; [lia|exact I].
     - destruct (nl =? 0); cbn [fst snd err_ok epos]; split; (lia || exact I).
   Qed.
@@ -404,11 +567,18 @@ Section Ok.
   Lemma term_parse_ok t pos : 1 <= pos ->
     nodes_ok (fst (term_parse inp t pos)) /\ err_ok (snd (term_parse inp t pos)).
   Proof.
-    intros Hpos. destruct t as [ch]. unfold term_parse.
-    destruct (byte_at inp pos) as [b|]; [destruct (b =? ch)|]; cbn [fst snd err_ok mk_err epos];
-      split; try exact I; try exact Hpos; try constructor.
-    - apply node_ok_term. lia.
-    - constructor.
+    intros Hpos. destruct t as [ch|l].
+    - unfold term_parse.
+      destruct (byte_at inp pos) as [b|]; [destruct (b =? ch)|]; cbn [fst snd err_ok mk_err epos];
+        split; try exact I; try exact Hpos; try constructor.
+      + apply node_ok_term. lia.
+      + constructor.
+    - destruct (term_parse inp (TLit l) pos) as [res err] eqn:E. cbn [fst snd].
+      destruct (term_parse_cases _ _ _ _ _ E) as [->|(n & -> & ->)].
+      + split; [constructor|]. destruct err as [e|]; [|exact I].
+        apply term_parse_err in E. destruct E as (_ & Hle & _). cbn [err_ok]. lia.
+      + apply term_parse_lit_node in E. destruct E as (_ & tok & v & rp & -> & _ & Hle & _).
+        split; [apply nodes_ok_one, node_ok_term; lia|exact I].
   Qed.
 
   Lemma trim_nodes_ok m ns : forall w, nodes_ok ns -> err_ok w ->
@@ -914,22 +1084,23 @@ Qed.
 
 (* between any two placements: the run at the larger offset is the run at the smaller one shifted
    by the difference of the offsets *)
-Corollary C12_shift_between data o1 o2 rules fuel root : 1 <= o1 -> o1 <= o2 ->
-  run {| i_data := data; i_offset := o2 |} rules fuel root =
-  shift_pout (o2 - o1) (run {| i_data := data; i_offset := o1 |} rules fuel root) /\
-  parse_top {| i_data := data; i_offset := o2 |} rules fuel root =
-  shift_outcome (shift_top (o2 - o1)) (parse_top {| i_data := data; i_offset := o1 |} rules fuel root).
+Corollary C12_shift_between data cf cd o1 o2 rules fuel root : 1 <= o1 -> o1 <= o2 ->
+  run {| i_data := data; i_offset := o2; i_cf := cf; i_cd := cd |} rules fuel root =
+  shift_pout (o2 - o1) (run {| i_data := data; i_offset := o1; i_cf := cf; i_cd := cd |} rules fuel root) /\
+  parse_top {| i_data := data; i_offset := o2; i_cf := cf; i_cd := cd |} rules fuel root =
+  shift_outcome (shift_top (o2 - o1)) (parse_top {| i_data := data; i_offset := o1; i_cf := cf; i_cd := cd |} rules fuel root).
 Proof.
   intros H1 H2.
-  assert (E : {| i_data := data; i_offset := o2 |} = shift_input (o2 - o1) {| i_data := data; i_offset := o1 |}).
-  { unfold shift_input; cbn [i_data i_offset]. f_equal. lia. }
+  assert (E : {| i_data := data; i_offset := o2; i_cf := cf; i_cd := cd |} =
+              shift_input (o2 - o1) {| i_data := data; i_offset := o1; i_cf := cf; i_cd := cd |}).
+  { unfold shift_input; cbn [i_data i_offset i_cf i_cd]. f_equal. lia. }
   rewrite E. split; [apply C12_shift_run|apply C12_shift_top]; exact H1.
 Qed.
 
 (* the hypothesis 1 <= offset is needed: at offset 0 a line break at position 0 is taken for
    "no line break seen" by SkipWhitespaces (text/reader.go: nlPos == 0), at offset 5 it is seen *)
 Example C12_offset0_refuted :
-  let inp := {| i_data := [10; 10; 97]; i_offset := 0 |} in
+  let inp := mk_input [10; 10; 97] 0 in
   let root := PLeftTrim WsSpaces (PTerm (TRune 97)) in
   run (shift_input 5 inp) [] 5 root <> shift_pout 5 (run inp [] 5 root).
 Proof. vm_compute. discriminate. Qed.
@@ -1076,12 +1247,12 @@ Qed.
      (tree positions, error position, context: cache, furthest error, ghost logs; call count equal);
    - a success returns the same trees, shifted by d;
    - a failure returns an error whose rendered TEXT (message + file:line:column) is identical. *)
-Theorem C12_placement_invariant pre f rules fuel root :
+Theorem C12_placement_invariant pre f cf cd rules fuel root :
   let d := placement_shift pre f in
   let fs1 := new_fileset [f] in
   let fs2 := new_fileset (pre ++ [f]) in
-  let inp1 := {| i_data := f_data f; i_offset := 1 |} in
-  let inp2 := {| i_data := f_data f; i_offset := offset_of (pre ++ [f]) (length pre) |} in
+  let inp1 := {| i_data := f_data f; i_offset := 1; i_cf := cf; i_cd := cd |} in
+  let inp2 := {| i_data := f_data f; i_offset := offset_of (pre ++ [f]) (length pre); i_cf := cf; i_cd := cd |} in
   parse_top inp2 rules fuel root = shift_outcome (shift_top d) (parse_top inp1 rules fuel root) /\
   (forall ns c, parse_top inp1 rules fuel root = Ok (TopNode ns c) ->
      parse_top inp2 rules fuel root = Ok (TopNode (map (shift_node d) ns) (shift_ctx d c))) /\
@@ -1092,7 +1263,7 @@ Theorem C12_placement_invariant pre f rules fuel root :
 Proof.
   intros d fs1 fs2 inp1 inp2.
   assert (E : inp2 = shift_input d inp1).
-  { unfold inp2, inp1, shift_input, d, placement_shift; cbn [i_data i_offset]. f_equal.
+  { unfold inp2, inp1, shift_input, d, placement_shift; cbn [i_data i_offset i_cf i_cd]. f_equal.
     pose proof (offset_of_last_ge pre f). lia. }
   assert (Htop : parse_top inp2 rules fuel root = shift_outcome (shift_top d) (parse_top inp1 rules fuel root)).
   { rewrite E. apply C12_shift_top. cbn [inp1 i_offset]. lia. }
@@ -1127,13 +1298,15 @@ Proof.
   { rewrite offset_of_last. cbn [end_from]. unfold f_len, filler, new_file; cbn [f_data].
     rewrite normalize_repeat, repeat_length. lia. }
   assert (Ed : placement_shift [filler] f = d) by (unfold placement_shift; rewrite Eo; reflexivity).
-  assert (E1 : eng_input data 1 = {| i_data := f_data f; i_offset := 1 |}) by reflexivity.
-  assert (E2 : eng_input data offset = {| i_data := f_data f; i_offset := offset_of ([filler] ++ [f]) (length [filler]) |}).
+  assert (E1 : eng_input data 1 = mk_input (f_data f) 1) by reflexivity.
+  assert (E2 : eng_input data offset = mk_input (f_data f) (offset_of ([filler] ++ [f]) (length [filler]))).
   { rewrite Eo. unfold eng_input. replace (offset <=? 1) with false by (symmetry; apply N.leb_gt; lia). reflexivity. }
   assert (F1 : eng_files data 1 = [f]) by reflexivity.
   assert (F2 : eng_files data offset = [filler] ++ [f]).
   { unfold eng_files. replace (offset <=? 1) with false by (symmetry; apply N.leb_gt; lia). reflexivity. }
-  destruct (C12_placement_invariant [filler] f rules fuel root) as (H1 & _ & H3).
+  destruct (C12_placement_invariant [filler] f (fun _ => Some 0) (fun _ => Some 0%Z) rules fuel root) as (H1 & _ & H3).
+  fold (mk_input (f_data f) 1) in H1, H3.
+  fold (mk_input (f_data f) (offset_of ([filler] ++ [f]) (length [filler]))) in H1, H3.
   rewrite Ed in *. rewrite E1, E2, F1, F2. split; [exact H1|].
   intros e c H. destruct (H3 e c H) as (e' & c' & Htop & Hpos & Hcause & _ & Htxt).
   replace (shift_err d e) with e'; [exact Htxt|].
@@ -1153,8 +1326,8 @@ Definition ex_pre : list file := [new_file [120] [1; 2; 3; 4; 5]].
 
 Example C12_example_success :
   let f := ex_file [97; 32; 98] in
-  let inp1 := {| i_data := f_data f; i_offset := 1 |} in
-  let inp7 := {| i_data := f_data f; i_offset := 7 |} in
+  let inp1 := mk_input (f_data f) 1 in
+  let inp7 := mk_input (f_data f) 7 in
   offset_of (ex_pre ++ [f]) (length ex_pre) = 7 /\
   parse_top inp7 ex_rules 30 ex_root = shift_outcome (shift_top 6) (parse_top inp1 ex_rules 30 ex_root) /\
   exists c, parse_top inp1 ex_rules 30 ex_root =
@@ -1176,8 +1349,8 @@ Qed.
 (* a failing input "a\n b": the whitespace error of RightTrim; same text in both placements *)
 Example C12_example_error :
   let f := ex_file [97; 10; 32; 98] in
-  let inp1 := {| i_data := f_data f; i_offset := 1 |} in
-  let inp7 := {| i_data := f_data f; i_offset := 7 |} in
+  let inp1 := mk_input (f_data f) 1 in
+  let inp7 := mk_input (f_data f) 7 in
   exists e1 c1 e7 c7,
     parse_top inp1 ex_rules 30 ex_root = Ok (TopErr e1 c1) /\
     parse_top inp7 ex_rules 30 ex_root = Ok (TopErr e7 c7) /\
@@ -1185,6 +1358,29 @@ Example C12_example_error :
     top_text (new_fileset [f]) e1 = Ok (bytes "failed to parse the input: new line is not allowed at f:1:2") /\
     top_text (new_fileset (ex_pre ++ [f])) e7 = Ok (bytes "failed to parse the input: new line is not allowed at f:1:2").
 Proof. vm_compute. do 4 eexists. repeat (split; [reflexivity|]). reflexivity. Qed.
+
+(* literal terminals (TLit, the parsers of Literals.v): " 42" under LeftTrim(Integer) gives the INTEGER
+   node 42 at 2..4 resp. 8..10; the unterminated string (space, double quote, a, b) under LeftTrim(String) fails BEHIND
+   the start position (5 resp. 11, the place where the closing quote is missing) *)
+Example C12_example_literal :
+  let root := PLeftTrim WsSpaces (PTerm (TLit LInteger)) in
+  let inp1 := mk_input [32; 52; 50] 1 in
+  let inp7 := mk_input [32; 52; 50] 7 in
+  let sroot := PLeftTrim WsSpaces (PTerm (TLit (LString false))) in
+  let sinp1 := mk_input [32; 34; 97; 98] 1 in
+  let sinp7 := mk_input [32; 34; 97; 98] 7 in
+  inp7 = shift_input 6 inp1 /\
+  run inp7 [] 5 root = shift_pout 6 (run inp1 [] 5 root) /\
+  run inp1 [] 5 root = Ok ([NTerm [73; 78; 84; 69; 71; 69; 82] (VInt 42) 2 4], [], None, ctx0) /\
+  run inp7 [] 5 root = Ok ([NTerm [73; 78; 84; 69; 71; 69; 82] (VInt 42) 8 10], [], None, ctx0) /\
+  parse_top sinp7 [] 5 sroot = shift_outcome (shift_top 6) (parse_top sinp1 [] 5 sroot) /\
+  exists e1 c1 e7 c7,
+    parse_top sinp1 [] 5 sroot = Ok (TopErr e1 c1) /\ parse_top sinp7 [] 5 sroot = Ok (TopErr e7 c7) /\
+    epos e1 = 5 /\ epos e7 = 11 /\ ecause e1 = ecause e7 /\
+    map fst (g_fails c1) = [2] /\ map fst (g_fails c7) = [8].
+Proof.
+  vm_compute. repeat (split; [reflexivity|]). do 4 eexists. repeat (split; [reflexivity|]). reflexivity.
+Qed.
 
 (* ------------------------------------------------------------------ *)
 (* Summary statements and the exactness of the hypotheses              *)
@@ -1217,7 +1413,7 @@ Qed.
 (* [ctx_ok] is needed as well: a (never arising) start cache holding a node at position 0 makes
    RightTrim skip whitespace from position 0 *)
 Example C12_ctx_ok_needed :
-  let inp := {| i_data := [10; 10]; i_offset := 1 |} in
+  let inp := mk_input [10; 10] 1 in
   let c := cache_save ctx0 0 1 {| r_lrc := []; r_cp := []; r_err := None; r_nodes := [NEmpty 0] |} in
   let e := PRightTrim WsSpaces (PMemo 0 PEmpty) in
   parse (shift_input 5 inp) [] 5 e (shift_ctx 5 c) [] [] (1 + 5) <> shift_pout 5 (parse inp [] 5 e c [] [] 1).
